@@ -456,7 +456,13 @@ func genEmailRule(r *c.Rng) string {
 
 func genURI(r *c.Rng) string {
 	host := maybeMut(r, genDomain(r))
-	switch r.Intn(12) {
+	switch r.Intn(15) {
+	case 8:
+		host += ":" // url.Parse accepts an empty port; Host keeps the colon, Port() is ""
+	case 9:
+		host = "[fd00::1]:"
+	case 10:
+		host += ":0"
 	case 0:
 		host += ":443"
 	case 1:
@@ -605,7 +611,9 @@ func genCase(r *c.Rng) *Case {
 		for i := nn(2); i > 0; i-- {
 			u := genURI(r)
 			if r.Chance(1, 2) {
-				u = "https://" + nearName(r, near) + "/x"
+				// a host near a rule, in every spelling of the authority the URL parser accepts
+				u = "https://" + c.Pick(r, []string{"", "", "", "user@", "u:p@"}) + nearName(r, near) +
+					c.Pick(r, []string{"", "", "", ":", ":443", ":0", "."}) + c.Pick(r, []string{"/x", "", "?q", "#f"})
 			}
 			if _, err := url.Parse(u); err == nil {
 				k.URIs = append(k.URIs, u)
@@ -731,7 +739,11 @@ func main() {
 	r := c.NewRng(c.Seed())
 	if *mode == "e2e" {
 		for i := 0; i < *n; i++ {
-			emit(genE2E(r.Fork()))
+			if i%3 == 2 {
+				emit(genE2ESSH(r.Fork()))
+			} else {
+				emit(genE2E(r.Fork()))
+			}
 		}
 		fmt.Printf("e2e: %d cases refused for a reason other than policy (not compared)\n", skipped)
 		return
